@@ -204,14 +204,14 @@ impl EventGen for Container {
         if let Some(inner_events) = self.0.inner_events(context) {
             // If there's only text/cdata events, apply to current element and render
             // (adjacent pieces - text, CDATA sections - make up the text in document
-            // order; comments are not part of it).
+            // order; comments and processing instructions are not part of it).
             let mut pieces = Some(Vec::new());
             for e in inner_events.iter() {
                 let piece = if let Some(t) = e.text_string() {
                     (false, t)
                 } else if let Some(c) = e.cdata_string() {
                     (true, c)
-                } else if e.is_comment() {
+                } else if e.is_comment() || e.is_pi() {
                     continue;
                 } else {
                     // not text or cdata - abandon the effort and mark as such.
